@@ -128,7 +128,10 @@ SRunCalls(art, refs, calls, i) ==
 (* Part 3 (C07): what the library signs, it verifies, and it reports what  *)
 (* was signed.  Functional laws of the sign -> verify round trip.          *)
 (*                                                                         *)
-(* in = [api : "oci"|"blob", keySpec, format, signer : "local"|            *)
+(* signer "localTSA": the local signer with an RFC 3161 timestamper; the    *)
+(* signature is then verified under a policy that lists a tsa store        *)
+(* (timestamp verification mandatory).                                     *)
+(* in = [api : "oci"|"blob", keySpec, format, signer : "local"|"localTSA"| *)
 (*       "pluginRaw"|"pluginEnvelope", fields : Seq(extra descriptor       *)
 (*       fields present), meta : "none"|"one"|"two", expiry : Nat (s),     *)
 (*       blob : size class, cmt : content media type atom]                 *)
